@@ -6,6 +6,7 @@ verus! {
 //@include prelude/std_assumed.rs
 //@struct file=src/algebra/csc/core.rs name=CscMatrix
 //@include units/inc/csc_colcount_specs.rs
+//@struct file=src/solver/core/kktsolvers/direct/quasidef/datamaps.rs name=LDLDataMap keep=P,A,diagP,diag_full
 //@struct file=src/algebra/matrix_types.rs name=Adjoint rules=R12
 //@enum file=src/algebra/matrix_types.rs name=MatrixShape rules=R12 derive="PartialEq, Eq, Clone, Copy, Structural"
 //@enum file=src/algebra/matrix_types.rs name=MatrixTriangle rules=R12 derive="PartialEq, Eq, Clone, Copy, Structural"
@@ -303,6 +304,7 @@ it
         },
     ensures
         final(self).m == old(self).m, final(self).n == old(self).n,
+        fill_block_state(*old(self), *final(self), *M, final(MtoKKT)@, initrow, initcol, shape, M.rowval@.len() as int),
         final(self).arrays_ok(), final(self).rowval@.len() == old(self).rowval@.len(), final(self).colptr@.len() == old(self).colptr@.len(),
         final(MtoKKT)@.len() == old(MtoKKT)@.len(),
         // C11: N: entry j of column i of M lands at (M.rowval[j]+initrow, i+initcol), in slot dest_n; the slot is recorded
@@ -602,6 +604,7 @@ impl CscMatrix<F> {
         forall|i: int| 0 <= i < M.n && missing_diag(*M, i) ==> #[trigger] old(self).colptr@[i] < old(self).rowval@.len(),
         forall|i1: int, i2: int| 0 <= i1 < i2 < M.n && missing_diag(*M, i1) && missing_diag(*M, i2) ==> #[trigger] old(self).colptr@[i1] != #[trigger] old(self).colptr@[i2],
     ensures
+        fmd_post(*old(self), *final(self), *M),
         final(self).arrays_ok(), final(self).rowval@.len() == old(self).rowval@.len(), final(self).colptr@.len() == old(self).colptr@.len(),
         final(self).m == old(self).m, final(self).n == old(self).n,
         colptr_same_except(final(self).colptr@, old(self).colptr@, 0, M.n as int),
@@ -915,6 +918,12 @@ pub proof fn lemma_count_row_mono(rv: Seq<usize>, r: int, a: int, b: int)
     ensures count_row(rv, r, a) <= count_row(rv, r, b),
     decreases b,
 { if a < b { lemma_count_row_mono(rv, r, a, b - 1); } }
+// rows are nonnegative: nothing is counted for a negative row number
+pub proof fn lemma_count_row_absent_below(rv: Seq<usize>, r: int, k: int)
+    requires r < 0, 0 <= k <= rv.len(),
+    ensures count_row(rv, r, k) == 0,
+    decreases k,
+{ if k > 0 { lemma_count_row_absent_below(rv, r, k - 1); } }
 pub proof fn lemma_count_row_absent(rv: Seq<usize>, r: int, k: int)
     requires 0 <= k <= rv.len(), forall|q: int| 0 <= q < rv.len() ==> #[trigger] rv[q] < r,
     ensures count_row(rv, r, k) == 0,
@@ -951,6 +960,254 @@ pub proof fn lemma_tpos_distinct(rv: Seq<usize>, j1: int, j2: int, sm: int)
         assert(count_row(rv, r1, j1 + 1) == count_row(rv, r1, j1) + 1);
         lemma_count_row_mono(rv, r1, j1 + 1, j2);
     } else if r1 < r2 { lemma_below_mono(rv, r1 + 1, r2, n); } else { lemma_below_mono(rv, r2 + 1, r1, n); }
+}
+
+
+//@fn file=src/solver/core/kktsolvers/direct/quasidef/kkt_assembly.rs name=_kkt_assemble_fill as=kkt_fill_triu_arm rules=R1 from=@arm to="MatrixTriangle::Triu#1" header="fn _kkt_assemble_fill<T: FloatT>(K: &mut CscMatrix<T>, P: &CscMatrix<T>, A: &CscMatrix<T>, map: &mut LDLDataMap, n: usize)"
+//@contract
+    requires kkt_triu_pre(*old(K), *P, *A, n as int), old(map).P@.len() >= P.nzval@.len(), old(map).A@.len() >= A.nzval@.len(),
+    ensures kkt_triu_post(*old(K), *final(K), *P, *A, n as int, final(map).P@, final(map).A@),
+//@pre
+        let ghost K0 = *K;
+        let ghost gn = n as int;
+        proof { lemma_kkt_pre_P(K0, *P, *A, gn); }
+//@after_stmt 1
+        let ghost K1 = *K;
+        let ghost mapP1 = map.P@;
+        proof { lemma_kkt_after_P(K0, K1, *P, *A, gn, mapP1); }
+//@after_stmt 2
+        let ghost K2 = *K;
+        proof { lemma_kkt_after_md(K0, K1, K2, *P, *A, gn, mapP1); }
+//@after_stmt 3
+        proof { lemma_kkt_final(K0, K2, *K, *P, *A, gn, map.P@, map.A@); }
+//@end
+
+// ---- KKT assembly, upper-triangle layout: the three fills that place P, its missing diagonal entries and A' ----
+pub open spec fn pcnt(P: CscMatrix<F>, c: int) -> int { P.colptr@[c + 1] - P.colptr@[c] }
+pub open spec fn mdn(P: CscMatrix<F>, c: int) -> int { if missing_diag(P, c) { 1int } else { 0int } }
+// cursor state handed over by the counting pass (after colcount_to_colptr): column c of the P block has room for P's
+// entries plus a diagonal entry if P has none; column n + r has room for the entries of row r of A
+pub open spec fn kkt_triu_pre(K: CscMatrix<F>, P: CscMatrix<F>, A: CscMatrix<F>, n: int) -> bool {
+    &&& K.arrays_ok() && P.colptr_ok_u() && A.colptr_ok_u() && P.n == n && P.m == n && A.n == n
+    &&& K.colptr@.len() > n + A.m && K.colptr@.len() <= usize::MAX && K.rowval@.len() <= usize::MAX
+    &&& forall|k: int| 0 <= k < A.rowval@.len() ==> #[trigger] A.rowval@[k] < A.m
+    &&& forall|k: int| 0 <= k < P.rowval@.len() ==> #[trigger] P.rowval@[k] < n
+    &&& forall|c: int| 0 <= c < n ==> #[trigger] K.colptr@[c] + pcnt(P, c) + mdn(P, c) <= K.colptr@[c + 1]
+    &&& forall|r: int| 0 <= r < A.m ==> #[trigger] K.colptr@[n + r] + count_row(A.rowval@, r, A.rowval@.len() as int) <= K.colptr@[n + r + 1]
+    &&& K.colptr@[n + A.m] <= K.rowval@.len()
+}
+pub open spec fn kkt_triu_post(K0: CscMatrix<F>, K: CscMatrix<F>, P: CscMatrix<F>, A: CscMatrix<F>, n: int, mapP: Seq<usize>, mapA: Seq<usize>) -> bool {
+    &&& K.arrays_ok() && K.rowval@.len() == K0.rowval@.len() && K.colptr@.len() == K0.colptr@.len()
+    // C11: every entry of P sits in its own column, at its own row, in storage order, and its slot is recorded
+    &&& forall|i: int, j: int| #[trigger] P.in_col_u(j, i) ==> {
+            let d = K0.colptr@[i] + (j - P.colptr@[i]);
+            mapP[j] == d && K.rowval@[d] == P.rowval@[j] && K.nzval@[d] == P.nzval@[j] }
+    // C11: complete diagonal: the last entry written into column c < n is (c, c): P's own diagonal entry or a structural zero
+    &&& forall|c: int| 0 <= c < n ==> {
+            &&& #[trigger] K.colptr@[c] == K0.colptr@[c] + pcnt(P, c) + mdn(P, c)
+            &&& K.colptr@[c] > K0.colptr@[c] && K.rowval@[K.colptr@[c] - 1] == c
+            &&& missing_diag(P, c) ==> K.nzval@[K.colptr@[c] - 1] == f_zero() }
+    // C11: entry j of A (row r, column i) sits transposed at (i, n + r)
+    &&& forall|i: int, j: int| #[trigger] A.in_col_u(j, i) ==> {
+            let d = dest_t(K0, A, n, j);
+            mapA[j] == d && K.rowval@[d] == i && K.nzval@[d] == A.nzval@[j] && K0.colptr@[n + A.rowval@[j]] <= d < K0.colptr@[n + A.rowval@[j] + 1] }
+    &&& forall|r: int| 0 <= r < A.m ==> #[trigger] K.colptr@[n + r] == K0.colptr@[n + r] + count_row(A.rowval@, r, A.rowval@.len() as int)
+}
+// what fill_missing_diag guarantees, as one predicate
+pub open spec fn fmd_post(K1: CscMatrix<F>, K2: CscMatrix<F>, M: CscMatrix<F>) -> bool {
+    &&& K2.arrays_ok() && K2.rowval@.len() == K1.rowval@.len() && K2.colptr@.len() == K1.colptr@.len()
+    &&& colptr_same_except(K2.colptr@, K1.colptr@, 0, M.n as int)
+    &&& forall|i: int| 0 <= i < M.n ==> {
+            let dest = #[trigger] K1.colptr@[i] as int;
+            if missing_diag(M, i) { K2.colptr@[i] == dest + 1 && K2.rowval@[dest] == i && K2.nzval@[dest] == f_zero() }
+            else { K2.colptr@[i] == dest } }
+    &&& forall|s: int| 0 <= s < K1.rowval@.len() && #[trigger] untouched_md(K1.colptr@, M, M.n as int, s)
+            ==> K2.rowval@[s] == K1.rowval@[s] && K2.nzval@[s] == K1.nzval@[s]
+}
+// state between the second and the third fill: P and its diagonal are in place, the A' columns are untouched
+pub open spec fn kkt_mid(K0: CscMatrix<F>, K2: CscMatrix<F>, P: CscMatrix<F>, n: int, mapP: Seq<usize>) -> bool {
+    &&& K2.arrays_ok() && K2.rowval@.len() == K0.rowval@.len() && K2.colptr@.len() == K0.colptr@.len()
+    &&& forall|i: int, j: int| #[trigger] P.in_col_u(j, i) ==> {
+            let d = K0.colptr@[i] + (j - P.colptr@[i]);
+            mapP[j] == d && K2.rowval@[d] == P.rowval@[j] && K2.nzval@[d] == P.nzval@[j] }
+    &&& forall|c: int| 0 <= c < n ==> {
+            &&& #[trigger] K2.colptr@[c] == K0.colptr@[c] + pcnt(P, c) + mdn(P, c)
+            &&& K2.colptr@[c] > K0.colptr@[c] && K2.rowval@[K2.colptr@[c] - 1] == c
+            &&& missing_diag(P, c) ==> K2.nzval@[K2.colptr@[c] - 1] == f_zero() }
+    &&& forall|c: int| n <= c < K0.colptr@.len() ==> #[trigger] K2.colptr@[c] == K0.colptr@[c]
+}
+pub proof fn lemma_kkt_pre_P(K0: CscMatrix<F>, P: CscMatrix<F>, A: CscMatrix<F>, n: int)
+    requires kkt_triu_pre(K0, P, A, n),
+    ensures fill_block_pre(K0, P, 0, 0, MatrixShape::N),
+{
+    assert forall|i: int, j: int| #[trigger] P.in_col_u(j, i) implies dest_n(K0, P, 0, i, j) < K0.rowval@.len() by {
+        assert(K0.colptr@[i] + pcnt(P, i) + mdn(P, i) <= K0.colptr@[i + 1]);
+        lemma_kkt_cursors_mono(K0, P, A, n, i + 1, n + A.m);
+    }
+    assert forall|i1: int, j1: int, i2: int, j2: int| #[trigger] P.in_col_u(j1, i1) && #[trigger] P.in_col_u(j2, i2) && j1 != j2
+        implies dest_n(K0, P, 0, i1, j1) != dest_n(K0, P, 0, i2, j2) by {
+        assert(K0.colptr@[i1] + pcnt(P, i1) + mdn(P, i1) <= K0.colptr@[i1 + 1]);
+        assert(K0.colptr@[i2] + pcnt(P, i2) + mdn(P, i2) <= K0.colptr@[i2 + 1]);
+        if i1 < i2 { lemma_kkt_cursors_mono(K0, P, A, n, i1 + 1, i2); }
+        if i2 < i1 { lemma_kkt_cursors_mono(K0, P, A, n, i2 + 1, i1); }
+    }
+}
+pub proof fn lemma_kkt_after_P(K0: CscMatrix<F>, K1: CscMatrix<F>, P: CscMatrix<F>, A: CscMatrix<F>, n: int, mapP: Seq<usize>)
+    requires
+        kkt_triu_pre(K0, P, A, n), fill_block_state(K0, K1, P, mapP, 0, 0, MatrixShape::N, P.rowval@.len() as int),
+        K1.arrays_ok(), K1.rowval@.len() == K0.rowval@.len(), K1.colptr@.len() == K0.colptr@.len(),
+    ensures
+        forall|i: int| 0 <= i < n ==> #[trigger] K1.colptr@[i] == K0.colptr@[i] + pcnt(P, i),
+        forall|c: int| n <= c < K0.colptr@.len() ==> #[trigger] K1.colptr@[c] == K0.colptr@[c],
+        // the preconditions of fill_missing_diag(P, 0)
+        forall|i: int| 0 <= i < P.n ==> P.colptr@[i] <= #[trigger] P.colptr@[i + 1] <= P.rowval@.len(),
+        forall|i: int| 0 <= i < P.n && missing_diag(P, i) ==> #[trigger] K1.colptr@[i] < K1.rowval@.len(),
+        forall|i1: int, i2: int| 0 <= i1 < i2 < P.n && missing_diag(P, i1) && missing_diag(P, i2) ==> #[trigger] K1.colptr@[i1] != #[trigger] K1.colptr@[i2],
+{
+    assert forall|i: int| 0 <= i < n implies #[trigger] K1.colptr@[i] == K0.colptr@[i] + pcnt(P, i) by {
+        assert(K1.colptr@[0 + i] == K0.colptr@[0 + i] + pushed_n(P, i, P.rowval@.len() as int));
+        assert(P.colptr@[i + 1] <= P.colptr@[P.n as int]);
+    }
+    assert forall|i: int| 0 <= i < P.n implies P.colptr@[i] <= #[trigger] P.colptr@[i + 1] <= P.rowval@.len() by { assert(P.colptr@[i + 1] <= P.colptr@[P.n as int]); }
+    assert forall|i: int| 0 <= i < P.n && missing_diag(P, i) implies #[trigger] K1.colptr@[i] < K1.rowval@.len() by {
+        assert(K0.colptr@[i] + pcnt(P, i) + mdn(P, i) <= K0.colptr@[i + 1]);
+        lemma_kkt_cursors_mono(K0, P, A, n, i + 1, n + A.m);
+    }
+    assert forall|i1: int, i2: int| 0 <= i1 < i2 < P.n && missing_diag(P, i1) && missing_diag(P, i2) implies #[trigger] K1.colptr@[i1] != #[trigger] K1.colptr@[i2] by {
+        assert(K0.colptr@[i1] + pcnt(P, i1) + mdn(P, i1) <= K0.colptr@[i1 + 1]);
+        lemma_kkt_cursors_mono(K0, P, A, n, i1 + 1, i2);
+        assert(P.colptr@[i2] <= P.colptr@[i2 + 1]);
+    }
+}
+pub proof fn lemma_kkt_after_md(K0: CscMatrix<F>, K1: CscMatrix<F>, K2: CscMatrix<F>, P: CscMatrix<F>, A: CscMatrix<F>, n: int, mapP: Seq<usize>)
+    requires
+        kkt_triu_pre(K0, P, A, n), fill_block_state(K0, K1, P, mapP, 0, 0, MatrixShape::N, P.rowval@.len() as int),
+        K1.arrays_ok(), K1.rowval@.len() == K0.rowval@.len(), K1.colptr@.len() == K0.colptr@.len(),
+        forall|i: int| 0 <= i < n ==> #[trigger] K1.colptr@[i] == K0.colptr@[i] + pcnt(P, i),
+        forall|c: int| n <= c < K0.colptr@.len() ==> #[trigger] K1.colptr@[c] == K0.colptr@[c],
+        fmd_post(K1, K2, P),
+    ensures kkt_mid(K0, K2, P, n, mapP), fill_block_pre(K2, A, 0, n as usize, MatrixShape::T),
+{
+    assert forall|i: int, j: int| #[trigger] P.in_col_u(j, i) implies ({
+        let d = K0.colptr@[i] + (j - P.colptr@[i]);
+        mapP[j] == d && K2.rowval@[d] == P.rowval@[j] && K2.nzval@[d] == P.nzval@[j] }) by {
+        let d = K0.colptr@[i] + (j - P.colptr@[i]);
+        assert(d == dest_n(K0, P, 0, i, j));
+        assert(P.colptr@[i + 1] <= P.colptr@[P.n as int]);
+        assert(K0.colptr@[i] + pcnt(P, i) + mdn(P, i) <= K0.colptr@[i + 1]);
+        lemma_kkt_cursors_mono(K0, P, A, n, i + 1, n + A.m);
+        assert(untouched_md(K1.colptr@, P, n, d)) by {
+            assert forall|c: int| 0 <= c < n && missing_diag(P, c) implies #[trigger] K1.colptr@[c] != d by {
+                assert(K0.colptr@[c] + pcnt(P, c) + mdn(P, c) <= K0.colptr@[c + 1]);
+                if c < i { lemma_kkt_cursors_mono(K0, P, A, n, c + 1, i); }
+                if i < c { lemma_kkt_cursors_mono(K0, P, A, n, i + 1, c); assert(P.colptr@[c] <= P.colptr@[c + 1]); }
+            }
+        }
+    }
+    assert forall|c: int| 0 <= c < n implies ({
+        &&& #[trigger] K2.colptr@[c] == K0.colptr@[c] + pcnt(P, c) + mdn(P, c)
+        &&& K2.colptr@[c] > K0.colptr@[c] && K2.rowval@[K2.colptr@[c] - 1] == c
+        &&& missing_diag(P, c) ==> K2.nzval@[K2.colptr@[c] - 1] == f_zero() }) by {
+        assert(P.colptr@[c] <= P.colptr@[c + 1]);
+        let dest = K1.colptr@[c] as int;
+        if !missing_diag(P, c) {
+            let j = P.colptr@[c + 1] - 1;
+            assert(P.in_col_u(j, c));
+            assert(K0.colptr@[c] + (j - P.colptr@[c]) == K2.colptr@[c] - 1);
+        }
+    }
+    assert forall|c: int| n <= c < K0.colptr@.len() implies #[trigger] K2.colptr@[c] == K0.colptr@[c] by { assert(K1.colptr@[c] == K0.colptr@[c]); }
+    let nn = A.rowval@.len() as int;
+    assert forall|j: int| 0 <= j < nn implies #[trigger] dest_t(K2, A, n, j) < K2.rowval@.len() by {
+        let r = A.rowval@[j] as int;
+        assert(K2.colptr@[n + r] == K0.colptr@[n + r]);
+        assert(count_row(A.rowval@, r, j + 1) == count_row(A.rowval@, r, j) + 1);
+        lemma_count_row_mono(A.rowval@, r, j + 1, nn);
+        assert(K0.colptr@[n + r] + count_row(A.rowval@, r, nn) <= K0.colptr@[n + r + 1]);
+        lemma_kkt_cursors_mono(K0, P, A, n, n + r + 1, n + A.m);
+    }
+    assert forall|j1: int, j2: int| 0 <= j1 < j2 < nn implies #[trigger] dest_t(K2, A, n, j1) != #[trigger] dest_t(K2, A, n, j2) by {
+        let r1 = A.rowval@[j1] as int; let r2 = A.rowval@[j2] as int;
+        assert(K2.colptr@[n + r1] == K0.colptr@[n + r1]); assert(K2.colptr@[n + r2] == K0.colptr@[n + r2]);
+        assert(count_row(A.rowval@, r1, j1 + 1) == count_row(A.rowval@, r1, j1) + 1);
+        assert(count_row(A.rowval@, r2, j2 + 1) == count_row(A.rowval@, r2, j2) + 1);
+        lemma_count_row_le(A.rowval@, r1, j1); lemma_count_row_le(A.rowval@, r2, j2);
+        if r1 == r2 { lemma_count_row_mono(A.rowval@, r1, j1 + 1, j2); }
+        else {
+            lemma_count_row_mono(A.rowval@, r1, j1 + 1, nn); lemma_count_row_mono(A.rowval@, r2, j2 + 1, nn);
+            assert(K0.colptr@[n + r1] + count_row(A.rowval@, r1, nn) <= K0.colptr@[n + r1 + 1]);
+            assert(K0.colptr@[n + r2] + count_row(A.rowval@, r2, nn) <= K0.colptr@[n + r2 + 1]);
+            if r1 < r2 { lemma_kkt_cursors_mono(K0, P, A, n, n + r1 + 1, n + r2); } else { lemma_kkt_cursors_mono(K0, P, A, n, n + r2 + 1, n + r1); }
+        }
+    }
+}
+pub proof fn lemma_kkt_final(K0: CscMatrix<F>, K2: CscMatrix<F>, K3: CscMatrix<F>, P: CscMatrix<F>, A: CscMatrix<F>, n: int, mapP: Seq<usize>, mapA: Seq<usize>)
+    requires
+        kkt_triu_pre(K0, P, A, n), kkt_mid(K0, K2, P, n, mapP),
+        fill_block_state(K2, K3, A, mapA, 0, n as usize, MatrixShape::T, A.rowval@.len() as int),
+        K3.arrays_ok(), K3.rowval@.len() == K2.rowval@.len(), K3.colptr@.len() == K2.colptr@.len(),
+    ensures kkt_triu_post(K0, K3, P, A, n, mapP, mapA),
+{
+    let nn = A.rowval@.len() as int;
+    // everything written into the columns < n lies below the first slot of the A' block, which is all fill_block(A) writes
+    assert forall|s: int| 0 <= s < K0.colptr@[n] implies fb_free(K2, A, n, MatrixShape::T, nn, s) by {
+        assert forall|i: int, j: int| #[trigger] A.in_col_u(j, i) && j < nn implies fb_dest(K2, A, n, MatrixShape::T, i, j) != s by {
+            let r = A.rowval@[j] as int;
+            assert(K2.colptr@[n + r] == K0.colptr@[n + r]);
+            lemma_count_row_le(A.rowval@, r, j);
+            lemma_kkt_cursors_mono(K0, P, A, n, n, n + r);
+        }
+    }
+    assert forall|i: int, j: int| #[trigger] P.in_col_u(j, i) implies ({
+        let d = K0.colptr@[i] + (j - P.colptr@[i]);
+        mapP[j] == d && K3.rowval@[d] == P.rowval@[j] && K3.nzval@[d] == P.nzval@[j] }) by {
+        let d = K0.colptr@[i] + (j - P.colptr@[i]);
+        assert(P.colptr@[i + 1] <= P.colptr@[P.n as int]);
+        assert(K0.colptr@[i] + pcnt(P, i) + mdn(P, i) <= K0.colptr@[i + 1]);
+        lemma_kkt_cursors_mono(K0, P, A, n, i + 1, n);
+        lemma_kkt_cursors_mono(K0, P, A, n, n, n + A.m);
+        assert(fb_free(K2, A, n, MatrixShape::T, nn, d));
+    }
+    assert forall|c: int| 0 <= c < n implies ({
+        &&& #[trigger] K3.colptr@[c] == K0.colptr@[c] + pcnt(P, c) + mdn(P, c)
+        &&& K3.colptr@[c] > K0.colptr@[c] && K3.rowval@[K3.colptr@[c] - 1] == c
+        &&& missing_diag(P, c) ==> K3.nzval@[K3.colptr@[c] - 1] == f_zero() }) by {
+        lemma_count_row_absent_below(A.rowval@, c - n, nn);
+        assert(K3.colptr@[c] == K2.colptr@[c] + count_row(A.rowval@, c - n, nn));
+        assert(K0.colptr@[c] + pcnt(P, c) + mdn(P, c) <= K0.colptr@[c + 1]);
+        lemma_kkt_cursors_mono(K0, P, A, n, c + 1, n);
+        lemma_kkt_cursors_mono(K0, P, A, n, n, n + A.m);
+        assert(fb_free(K2, A, n, MatrixShape::T, nn, K2.colptr@[c] - 1));
+    }
+    assert forall|i: int, j: int| #[trigger] A.in_col_u(j, i) implies ({
+        let d = dest_t(K0, A, n, j);
+        mapA[j] == d && K3.rowval@[d] == i && K3.nzval@[d] == A.nzval@[j] && K0.colptr@[n + A.rowval@[j]] <= d < K0.colptr@[n + A.rowval@[j] + 1] }) by {
+        let r = A.rowval@[j] as int;
+        assert(A.colptr@[i + 1] <= A.colptr@[A.n as int]);
+        assert(K2.colptr@[n + r] == K0.colptr@[n + r]);
+        assert(dest_t(K0, A, n, j) == dest_t(K2, A, n, j));
+        assert(count_row(A.rowval@, r, j + 1) == count_row(A.rowval@, r, j) + 1);
+        lemma_count_row_mono(A.rowval@, r, j + 1, nn);
+        lemma_count_row_le(A.rowval@, r, j);
+        assert(K0.colptr@[n + r] + count_row(A.rowval@, r, nn) <= K0.colptr@[n + r + 1]);
+    }
+    assert forall|r: int| 0 <= r < A.m implies #[trigger] K3.colptr@[n + r] == K0.colptr@[n + r] + count_row(A.rowval@, r, nn) by {
+        assert(K3.colptr@[n + r] == K2.colptr@[n + r] + count_row(A.rowval@, (n + r) - n, nn));
+        assert(K2.colptr@[n + r] == K0.colptr@[n + r]);
+    }
+}
+// the cursors handed over are nondecreasing
+pub proof fn lemma_kkt_cursors_mono(K: CscMatrix<F>, P: CscMatrix<F>, A: CscMatrix<F>, n: int, a: int, b: int)
+    requires kkt_triu_pre(K, P, A, n), 0 <= a <= b <= n + A.m,
+    ensures K.colptr@[a] <= K.colptr@[b],
+    decreases b - a,
+{
+    if a < b {
+        lemma_kkt_cursors_mono(K, P, A, n, a, b - 1);
+        let c = b - 1;
+        if c < n { assert(K.colptr@[c] + pcnt(P, c) + mdn(P, c) <= K.colptr@[c + 1]); assert(P.colptr@[c] <= P.colptr@[c + 1]); }
+        else { assert(K.colptr@[n + (c - n)] + count_row(A.rowval@, c - n, A.rowval@.len() as int) <= K.colptr@[n + (c - n) + 1]); lemma_count_row_le(A.rowval@, c - n, A.rowval@.len() as int); }
+    }
 }
 
 // ---- fill_block: abstract cursor discipline
